@@ -157,7 +157,7 @@ class Scratch(object):
                     os.remove(p)
 
 
-def make_config(args):
+def make_config(args, **kwargs):
     """Construct Configuration(args) with process-wide state saved/restored.  Returns (config | None, error)."""
     from behave.configuration import Configuration
     from behave.model import ScenarioOutline
@@ -167,7 +167,7 @@ def make_config(args):
     out, err = sys.stdout, sys.stderr
     sys.stdout = sys.stderr = io.StringIO()
     try:
-        return Configuration(list(args)), None
+        return Configuration(list(args), **kwargs), None
     except SystemExit as ex:
         return None, "SystemExit(%s): %s" % (ex.code, sys.stderr.getvalue()[-300:])
     except Exception as ex:
@@ -439,6 +439,26 @@ def userdata_cases(mon, sc, rng, n):
         want.update(defines)
         got = dict(config.userdata)
         mon.check("userdata.cmdline_overrides_file", got == want, lambda: dict(case=case, got=got, want=want))
+    # ---- -D on top of user data handed in by an embedding program (Configuration(..., userdata=...)) ---------------
+    for i in range(max(10, n // 20)):
+        sc.clear_files()
+        base = {k: rng.choice(["p1", "9", "off"]) for k in rng.sample(file_names, rng.randint(1, 3))}
+        defines = {k: rng.choice(["c1", "7", "yes"]) for k in rng.sample(names + ["BASE_URL"], rng.randint(1, 3))}
+        args = []
+        for k, v in defines.items():
+            args.extend(["-D", "%s=%s" % (k, v)])
+        kind = rng.choice(["UserData", "dict"])
+        given = UserData(dict(base)) if kind == "UserData" else dict(base)
+        config, err = make_config(args, load_config=False, userdata=given)
+        case = {"userdata_kwarg": kind, "given": base, "args": args}
+        mon.case(("userdata-kwarg", kind, tuple(sorted(base.items())), tuple(args)), True)
+        if config is None:
+            mon.check("userdata.cmdline_overrides_given", False, dict(case=case, error=err))
+            continue
+        want = dict(base)
+        want.update(defines)
+        got = dict(config.userdata)
+        mon.check("userdata.cmdline_overrides_given", got == want, lambda: dict(case=case, got=got, want=want))
     # ---- typed getters --------------------------------------------------------------------------------------
     for i in range(n):
         raw = rng.choice(["42", "-7", "3.5", "abc", "", "true", "Yes", "off", "0", "1", "2", " 12 ", "1e3", "no ", "maybe"])
@@ -498,6 +518,49 @@ def couplings(mon, sc, rng, n):
                                                         stop=config.stop, format=config.format, dry_run=config.dry_run, summary=config.summary,
                                                         tags=str(config.tags)))
 
+def console_formatter(mon, sc, rng, n):
+    """The formatter that ends up on the console when the configuration file names formatters (with output files) and the
+    command line does not: the default formatter -- and --wip / --steps-catalog on the command line decide what that is."""
+    from behave.__main__ import run_behave
+    for i in range(n):
+        sc.clear_files()
+        file_formats = rng.choice([["json"], ["progress", "json"], ["plain"]])
+        values = {"format": file_formats, "outfiles": ["out/r%d.txt" % j for j in range(len(file_formats))]}
+        file_default = rng.choice([None, "progress2", "progress3"])
+        if file_default:
+            values["default_format"] = file_default
+        fname = rng.choice(["behave.ini", "pyproject.toml", ".behaverc"])
+        text = toml_text(values) if fname.endswith(".toml") else ini_text(values)
+        with open(os.path.join(sc.cwd, fname), "w", encoding="utf-8") as fh:
+            fh.write(text)
+        mode = rng.choice([[], ["--wip"], ["-w"], ["--steps-catalog"], ["-f", "progress"]])
+        config, err = make_config(list(mode))
+        case = {"file": fname, "file_values": values, "args": mode}
+        mon.case(("console", fname, tuple(file_formats), file_default, tuple(mode)), True)
+        if config is None:
+            mon.check("console.formatter_follows_command_line", False, dict(case=case, error=err))
+            continue
+        out, errs = sys.stdout, sys.stderr
+        sys.stdout = sys.stderr = io.StringIO()
+        try:
+            try:
+                run_behave(config)          # there is nothing to run in the scratch directory: it ends right after the setup part
+            except BaseException as ex:      # noqa
+                pass
+        finally:
+            sys.stdout, sys.stderr = out, errs
+        got = list(config.format or [])
+        if mode in (["--wip"], ["-w"]):
+            want = file_formats + ["plain"]
+        elif mode == ["--steps-catalog"]:
+            want = None      # (the catalog mode appends its own formatter; covered by couplings.documented)
+        elif mode == ["-f", "progress"]:
+            want = file_formats + ["progress"]
+        else:
+            want = file_formats + [file_default or "pretty"]
+        if want is not None:
+            mon.check("console.formatter_follows_command_line", got == want, lambda: dict(case=case, got=got, want=want))
+
 
 def run(spec, mon):
     tier = spec.get("tier", "quick")
@@ -510,6 +573,7 @@ def run(spec, mon):
             random_case(mon, sc, rng, sample=(i == 3 and spec["shard"] == 0))
         userdata_cases(mon, sc, rng, 250 if tier == "quick" else 8000)
         couplings(mon, sc, rng, 10 if tier == "quick" else 300)
+        console_formatter(mon, sc, rng, 12 if tier == "quick" else 300)
     finally:
         sc.leave()
 
